@@ -512,6 +512,18 @@ fn run(ctx: &mut Ctx, rep: &mut Report, mode: Mode) {
         }
     }
     l5.extend(permuted_chain_packets());
+    // names that run through the header bytes (pointer targets 0..11), and the same packets with every pointer
+    // target 0..=13 in the question name
+    for p in into_header_packets() {
+        for t in 0..=13u8 {
+            let mut q = p.clone();
+            if q.len() > 13 && q[12] == 0xc0 {
+                q[13] = t;
+                l5.push(q);
+            }
+        }
+        l5.push(p);
+    }
     for l in 0..=255usize {
         for t in [39u16, 2, 15] {
             let mut name = vec![l as u8];
